@@ -9,8 +9,15 @@ package asp
 import (
 	"bytes"
 	"fmt"
+	"reflect"
 	"runtime/debug"
 	"strings"
+	"sync"
+	"sync/atomic"
+	"time"
+
+	"github.com/thought-machine/please/src/cli"
+	"github.com/thought-machine/please/src/core"
 )
 
 // VerifC19Token is one token as the lexer emitted it.
@@ -123,4 +130,155 @@ func VerifC19ParseReaderFailing(data []byte) VerifC19Outcome {
 		out.Kind = "parsed"
 	}
 	return out
+}
+
+// ---- rendering, one Parser over many files, concurrent failing parses (added for the round-2 follow-up) -------
+
+// VerifC19Render is what printing one syntax error did.
+//
+//	Kind "none":  the data parsed
+//	Kind "other": the error is not a positioned *errorStack
+//	Kind "full":  Error() produced the multi-line message with the source line and the caret
+//	Kind "short": Error() fell back to the bare message (no context lines, or the caret lies beyond the line)
+//	Kind "crash": Error() panicked (Msg: the panic value and the innermost asp frames)
+//
+// Line / Column are those of the innermost frame, LineLen is the length of the source line Error() displays
+// (errorStack.readLine of that frame, the very call errorMessage makes) and HasContext whether readLine returned
+// anything at all.
+type VerifC19Render struct {
+	Kind       string `json:"kind"`
+	Line       int    `json:"line"`
+	Column     int    `json:"column"`
+	LineLen    int    `json:"linelen"`
+	HasContext bool   `json:"ctx"`
+	Msg        string `json:"msg"`
+	Short      string `json:"short"`
+}
+
+var verifC19ColourMu sync.Mutex
+
+// VerifC19RenderError parses data and PRINTS the resulting error (err.Error(), what plz does with it) with
+// cli.ShowColouredOutput forced to coloured. With onDisk == "" the data goes through Parser.ParseData under a
+// name that is not a file (stdin, a subinclude fetched from elsewhere, a virtual filesystem): the position is
+// then 'line 1, column = byte offset + 1'. Otherwise onDisk names a file holding exactly data and the file goes
+// through Parser.ParseFileOnly, so the position comes from the file's line table.
+func VerifC19RenderError(data []byte, onDisk string, coloured bool) (out VerifC19Render) {
+	var err error
+	if onDisk == "" {
+		_, err = newParser().ParseData(data, "verif-c19-no-such-dir/BUILD")
+	} else {
+		_, err = newParser().ParseFileOnly(onDisk)
+	}
+	if err == nil {
+		return VerifC19Render{Kind: "none"}
+	}
+	st, ok := err.(*errorStack)
+	if !ok || len(st.Stack) == 0 || len(st.Readers) != len(st.Stack) {
+		return VerifC19Render{Kind: "other", Msg: fmt.Sprint(err)}
+	}
+	frame := st.Stack[0]
+	before, line, after := st.readLine(st.Readers[0], frame.Line-1)
+	out = VerifC19Render{Line: frame.Line, Column: frame.Column, LineLen: len(line), HasContext: line != "" || before != "" || after != "", Short: st.ShortError()}
+	verifC19ColourMu.Lock()
+	old := cli.ShowColouredOutput
+	cli.ShowColouredOutput = coloured
+	defer func() {
+		cli.ShowColouredOutput = old
+		verifC19ColourMu.Unlock()
+	}()
+	g := VerifC19Guard(func() VerifC19Outcome {
+		msg := err.Error()
+		if msg == st.ShortError() {
+			return VerifC19Outcome{Kind: "short", Msg: msg}
+		}
+		return VerifC19Outcome{Kind: "full", Msg: msg}
+	})
+	out.Kind, out.Msg = g.Kind, g.Msg
+	return out
+}
+
+// VerifC19SeqStep is one call of Parser.ParseFile in a sequence: Blocked means it did not return within the
+// watchdog (the remaining calls are then not made); InUse is the number of occupied slots of the parser's
+// limiter after the call returned; Kind is the classification of its error.
+type VerifC19SeqStep struct {
+	Blocked bool   `json:"blocked"`
+	InUse   int    `json:"inuse"`
+	Kind    string `json:"kind"`
+	Msg     string `json:"msg,omitempty"`
+}
+
+// VerifC19ParseFileSeq runs the real Parser.ParseFile over the given files, one after another, on ONE Parser
+// whose limiter has `slots` slots (NewParser with parse.numthreads = slots and a real interpreter, so files that
+// parse are interpreted as well), with a watchdog per call. A panic leaving ParseFile is Kind "crash".
+func VerifC19ParseFileSeq(slots int, files []string, watchdog time.Duration) (steps []VerifC19SeqStep, capacity int) {
+	state := core.NewDefaultBuildState()
+	state.Config.Parse.NumThreads = slots
+	p := NewParser(state)
+	capacity = cap(p.limiter)
+	for i, f := range files {
+		done := make(chan VerifC19Outcome, 1)
+		go func() {
+			done <- VerifC19Guard(func() VerifC19Outcome {
+				return verifC19Classify(p.ParseFile(core.NewPackage(fmt.Sprintf("verifc19/p%d", i)), nil, nil, 0, nil, f))
+			})
+		}()
+		select {
+		case out := <-done:
+			steps = append(steps, VerifC19SeqStep{InUse: len(p.limiter), Kind: out.Kind, Msg: out.Msg})
+		case <-time.After(watchdog):
+			steps = append(steps, VerifC19SeqStep{Blocked: true, InUse: len(p.limiter), Kind: "blocked"})
+			return steps, capacity
+		}
+	}
+	return steps, capacity
+}
+
+// VerifC19ErrorStateShared parses two malformed inputs under different names and reports whether the two error
+// values share their `files` map (the line tables used to turn offsets into line/column). Each error must own its
+// map: failing parses run on many goroutines with no lock on the error path.
+func VerifC19ErrorStateShared() (shared bool, why string) {
+	p := newParser()
+	_, e1 := p.ParseData([]byte("x = $\n"), "verif-c19-no-such-dir/a/BUILD")
+	_, e2 := p.ParseData([]byte("y = [1, 2\nz = $\n"), "verif-c19-no-such-dir/b/BUILD")
+	s1, ok1 := e1.(*errorStack)
+	s2, ok2 := e2.(*errorStack)
+	if !ok1 || !ok2 {
+		return false, "not positioned errors"
+	}
+	if s1.files != nil && s2.files != nil && reflect.ValueOf(s1.files).Pointer() == reflect.ValueOf(s2.files).Pointer() {
+		return true, "the two errors hold the same files map"
+	}
+	if _, present := s2.files["verif-c19-no-such-dir/a/BUILD"]; present {
+		return true, "the second error's files map knows the first file"
+	}
+	return false, ""
+}
+
+// VerifC19ConcurrentFailing runs failing parses (distinct file names, so that every one adds a line table) from
+// `workers` goroutines on one Parser until the deadline, and returns how many were made and how many did not yield
+// a positioned error. A data race on the error path aborts the process (fatal error: concurrent map ...), which
+// the caller observes from outside: call this in a child process only.
+func VerifC19ConcurrentFailing(workers int, inputs [][]byte, d time.Duration) (calls, bad int64) {
+	p := newParser()
+	deadline := time.Now().Add(d)
+	var wg sync.WaitGroup
+	for w := 0; w < workers; w++ {
+		wg.Add(1)
+		go func(w int) {
+			defer wg.Done()
+			for i := 0; ; i++ {
+				if i%64 == 0 && time.Now().After(deadline) {
+					return
+				}
+				name := fmt.Sprintf("verif-c19-no-such-dir/w%d/p%d/BUILD", w, i)
+				_, err := p.ParseData(inputs[(w+i)%len(inputs)], name)
+				atomic.AddInt64(&calls, 1)
+				if st, ok := err.(*errorStack); !ok || len(st.Stack) == 0 || st.Stack[0].Filename != name {
+					atomic.AddInt64(&bad, 1)
+				}
+			}
+		}(w)
+	}
+	wg.Wait()
+	return calls, bad
 }
